@@ -8,8 +8,8 @@ package rules
 //   chained  — HotStuff (Yin et al., PODC'19) Alg. 4/5: safeNode = extends(lock) OR justify.view > lock.view; lock on the
 //              two-chain head; commit the three-chain tail when the two upper links are direct parent links (the repository
 //              has no dummy blocks, so "direct" additionally means consecutive views);
-//   fast     — Fast-HotStuff (Jalalzai et al.): vote if view == justify.view+1 (and view >= current view), or, with an
-//              aggregate QC, if the block extends the highQC block; commit the two-chain tail with direct, consecutive links;
+//   fast     — Fast-HotStuff (Jalalzai et al.): vote if view == justify.view+1 (and view >= current view), or, with the
+//              aggregate QC of the previous view, if the block extends the highQC block; commit the two-chain tail with direct, consecutive links;
 //   simple   — simplified HotStuff (Jehl, FORTE'21): vote if view >= current view and justify.view >= locked.view; lock
 //              the grandparent (by justify links) if higher; commit the great-grandparent when the three views are consecutive.
 // A block that is not available in the store (and cannot be fetched) makes a rule that needs it answer "no".
@@ -39,6 +39,7 @@ type fblock struct {
 	Parent int // index of the parent block, -1 = genesis
 	QC     int // index of the certified block, -1 = genesis
 	Agg    bool // the proposal carries an aggregate QC (fast)
+	AggDV  int  // the aggregate QC is for view (block view - 1 + AggDV): 0 = the view that just ended
 }
 
 type pres struct {
@@ -105,7 +106,8 @@ func (r *refState) vote(rules string, i, viewArg int) bool {
 		return r.extends(i, r.lock) // safety rule
 	case NameFastHotStuff:
 		if b.Agg {
-			return r.have(b.QC) && r.extends(i, b.QC)
+			// unhappy path: the aggregate QC must be the one of the previous view, and the block must extend its high QC
+			return b.AggDV == 0 && r.have(b.QC) && r.extends(i, b.QC)
 		}
 		return b.View >= viewArg && b.View == r.view(b.QC)+1
 	case NameSimpleHotStuff:
@@ -263,7 +265,12 @@ func forestProp(c forestCase) common.Result {
 		}
 		msg := hotstuff.ProposeMsg{ID: 1, Block: real[i]}
 		if b.Agg && c.Rules == NameFastHotStuff {
-			msg.AggregateQC = &hotstuff.AggregateQC{}
+			av := b.View - 1 + b.AggDV
+			if av < 0 {
+				av = 0
+			}
+			agg := hotstuff.NewAggregateQC(nil, nil, hotstuff.View(av))
+			msg.AggregateQC = &agg
 		}
 		want := ref.vote(c.Rules, i, viewArg)
 		got := voteRule(hotstuff.View(viewArg), msg)
@@ -335,7 +342,7 @@ func forestKey(c forestCase) string {
 	var sb strings.Builder
 	sb.WriteString(c.Rules[:1])
 	for _, b := range c.Blocks {
-		fmt.Fprintf(&sb, "|%d,%d,%d,%v", b.View, b.Parent, b.QC, b.Agg)
+		fmt.Fprintf(&sb, "|%d,%d,%d,%v,%d", b.View, b.Parent, b.QC, b.Agg, b.AggDV)
 	}
 	for _, p := range c.Order {
 		fmt.Fprintf(&sb, ";%d,%d,%d", p.Blk, p.Kind, p.ViewArg)
@@ -420,6 +427,12 @@ func genForest(rt *rapid.T) forestCase {
 		}
 		if c.Rules == NameFastHotStuff {
 			b.Agg = rapid.IntRange(0, 9).Draw(rt, "agg") < 3
+			if b.Agg {
+				b.AggDV = rapid.SampledFrom([]int{0, 0, 0, 0, -1, -3, 1}).Draw(rt, "aggdv")
+				if b.View-1+b.AggDV < 0 {
+					b.AggDV = 0
+				}
+			}
 		}
 		c.Blocks = append(c.Blocks, b)
 		if newest < 0 || b.View > viewOf(newest) {
